@@ -19,18 +19,18 @@ def run(tier):
     common.build(["hook"])
     common.replay_witnesses(ck, ["hook"])
     common.replay_known(ck)
-    n = 2500 if quick else 80000
+    n = 2500 if quick else 80000 * common.TS
     rng = ck.rng.fork("err")
     plist = []
     for i in range(n):
         src, mods = feat_err.program(rng.fork(str(i)))
         plist.append({"name": "err/%d" % i, "steps": [("snip", src)], "mods": mods, "natives": True})
     r3 = ck.rng.fork("fintrace")
-    for i in range(500 if quick else 20000):
+    for i in range(500 if quick else 20000 * common.TS):
         src, mods = feat_err.finally_trace_program(r3.fork(str(i)))
         plist.append({"name": "fintrace/%d" % i, "steps": [("snip", src)], "mods": mods})
     r2 = ck.rng.fork("cerr")
-    for i in range(800 if quick else 30000):
+    for i in range(800 if quick else 30000 * common.TS):
         plist.append({"name": "cerr/%d" % i, "steps": [("snip", feat_err.compile_error_program(r2.fork(str(i))))], "mods": []})
     classes = {}
 
